@@ -656,6 +656,31 @@ class SemantivaOrchestrator(ABC):
             if k not in params_out and k in ctx_view:
                 params_out[k] = serialize_json_safe(ctx_view[k])
                 source_out[k] = "context"
+        # Remaining processing parameters follow the runtime policy
+        # (config > context > signature default), so defaults and defaults
+        # overridden by context are reported as well.
+        names_getter = getattr(node.processor, "get_processing_parameter_names", None)
+        try:
+            names = list(names_getter() or []) if callable(names_getter) else []
+        except Exception:
+            names = []
+        defaults_map = self._parameter_defaults(node.processor)
+        for k in names:
+            if k in params_out:
+                continue
+            if k in ctx_view:
+                params_out[k] = serialize_json_safe(ctx_view[k])
+                source_out[k] = "context"
+                continue
+            info = defaults_map.get(k)
+            default = _NO_DEFAULT
+            if isinstance(info, ParameterInfo):
+                default = info.default
+            elif isinstance(info, dict):
+                default = info.get("default", _NO_DEFAULT)
+            if default is not _NO_DEFAULT:
+                params_out[k] = serialize_json_safe(default)
+                source_out[k] = "default"
         for k, v in defaults.items():
             if k not in params_out:
                 params_out[k] = serialize_json_safe(v)
